@@ -29,10 +29,11 @@ use std::path::Path;
 pub struct C23;
 pub static P: C23 = C23;
 
-/// which denotation of the model the implementation is compared with: `false` = the code as it
-/// exists (a failing `/add` or `/bulk` truncates the whole log), `true` = request-local rollback.
-/// Switch to `true` once the repair is in /repo (the finder does not depend on it).
-const REPAIRED: bool = false;
+/// which denotation of the model the implementation is compared with: `true` = the code as it
+/// exists since /repo commit 69e89dd (`add_documents`: the whole batch is validated before
+/// anything is appended), `false` = the legacy handler (a failing `/add` or `/bulk` truncated the
+/// whole log).  The finder does not depend on it.
+const REPAIRED: bool = true;
 
 /// `VERIF_C23_REPAIRED=0|1` overrides the constant (experiments only)
 fn repaired() -> bool {
@@ -43,6 +44,8 @@ fn repaired() -> bool {
   }
 }
 
+/// signature of the original defect (known_findings.json: fixed in 69e89dd) — any occurrence is
+/// a regression
 const KNOWN_DROP: &str = "http.acked-write-dropped-by-later-rejected-request";
 
 const WORDS: [&str; 6] = ["rust", "search", "engine", "fast", "lite", "index"];
@@ -90,10 +93,12 @@ fn valid_doc(rng: &mut Rng, version: &mut u64) -> Value {
   d
 }
 
-/// a JSON object that `add_document` rejects (`validate_document`)
+/// a JSON object that `add_documents` rejects (`validate_document`)
 fn invalid_doc(rng: &mut Rng, version: &mut u64) -> Value {
   let mut d = valid_doc(rng, version);
-  match rng.below(9) {
+  match rng.below(11) {
+    9 => d["extra"] = json!("not in the schema"),
+    10 => d["body.raw"] = json!(1),
     0 | 1 => {
       d.as_object_mut().unwrap().remove("_id");
     }
@@ -346,7 +351,7 @@ impl Prop for C23 {
     "C23"
   }
   fn rule(&self) -> &'static str {
-    "case = (schema variant, refresh-on-commit flag, 12..36 raw HTTP requests: /add NDJSON and /bulk bodies with valid batches, batches containing a document add_document rejects (missing/non-string/blank _id, wrong field type, null) at a random position, unparsable lines/bodies, empty bodies; /delete with valid, unknown, invalid and malformed ids; /commit, /refresh, /compact, /search) against one live in-process server; after EVERY request response class, pending operations of wal.log and /search contents are compared with the model and the finder predicates are evaluated; a case is non-trivial when some successful /commit applied operations of at least two acknowledged requests AND some request was rejected while acknowledged operations were pending"
+    "case = (schema variant, refresh-on-commit flag, 12..36 raw HTTP requests: /add NDJSON and /bulk bodies with valid batches, batches containing a document add_documents rejects (missing/non-string/blank _id, wrong field type, null, unknown field) at a random position, unparsable lines/bodies, empty bodies; /delete with valid, unknown, invalid and malformed ids; /commit, /refresh, /compact, /search) against one live in-process server; after EVERY request response class, pending operations of wal.log and /search contents are compared with the model and the finder predicates are evaluated; a case is non-trivial when some successful /commit applied operations of at least two acknowledged requests AND some request was rejected while acknowledged operations were pending"
   }
   fn count(&self, tier: Tier) -> usize {
     tier.pick(60, 2000)
